@@ -868,7 +868,8 @@ def run_c09(rep, tier):
     else:
         ranges = [None, (-11, -1), (-21, -11), (-31, -21), (-105, -100), (-205, -200), (-324, -318)]
         cut = "small-magnitude branch: decades 1e-31..1e-1, 1e-105..1e-100, 1e-205..1e-200, 1e-324..1e-318 (thorough: all)"
-    res = harness.pmap(c09_float_task, ranges)
+    res = harness.pmap(c09_float_task, ranges,
+                       placeholder=lambda it, st, d: ({}, [dict(kind="inconclusive", detail=f"decades {it}: {st}: {d}")], 0))
     tot = dict(obligations=0, unsat=0, sat=0, unknown=0, model_gaps=0, paths=0, solver_s=0.0)
     problems = []
     decades = 0
